@@ -45,6 +45,13 @@ CHECKS = {
             'an injected constant-drift tone must de-drift onto one column labelled with its start frequency.',
             'between shift(tchans-1)>=fchans and the implemented limit either outcome is accepted; rounding ties excluded and counted',
             'DESIGN.md 3/C17'),
+    'C01': ('exploration',
+            'Hypothesis generated signal descriptions vs an independent per-pixel reference evaluator (own closed forms, sub-sample means, smearing); negative facets for malformed inputs',
+            'Every combination of input form (callable/array/list/scalar) for path, time profile, frequency profile and bandpass, all shipped '
+            'families with generated parameters, every integrate_* flag, sub-sample counts, smearing and seven bounding-range kinds is '
+            'injected into generated frames of both orientations and compared pixel by pixel with a reference evaluation.',
+            'tolerance derived from the profile Lipschitz bound times 64 ulp(fmax); box-edge pixels excluded and counted; randomised families via same-seed twin; array bandpass only in its unambiguous full-band form',
+            'DESIGN.md 3/C01'),
 }
 
 ALL = [f'C{i:02d}' for i in range(1, 21)]
